@@ -12,10 +12,11 @@ import json
 import os
 import shutil
 
+import bits
 import vlib
 from vlib import ToolError, log
 
-TIERS = {"quick": dict(noise=4000), "thorough": dict(noise=200000)}
+TIERS = {"quick": dict(noise=4000, prims=120), "thorough": dict(noise=200000, prims=1500)}
 SHARDS = 16
 
 
@@ -68,6 +69,7 @@ def _run(tier, seed, R):
         R.coverage["events_matched"] = events
         R.coverage["slider_lookups_checked (every subset of every square's rays)"] = lookups
         R.coverage["pair_entries_checked"] = 2 * 64 * 64
+        R.coverage["primitives (Bitboard.tla, drift only)"] = bits.run(R, exe, work, seed, n=T["prims"])
         first = json.loads(open(os.path.join(work, "geo_1.ndjson")).readline())
         first["ans"] = first.get("ans", [])[:8] + ["..."]
         R.sample(first)
